@@ -89,8 +89,14 @@ def cursor_invariant(ctx):
                                         if not isinstance(nxt, (ast.Assign, ast.AnnAssign)) or any(isinstance(c, ast.Call) for c in ast.walk(nxt)):
                                             break
                                     if not reset:
+                                        if summ is None:
+                                            summ = eng.entry(m, frozenset())
+                                        pre = summ.pre.get(id(st))
+                                        if pre is not None and ("eqc", ip, 0) in pre:
+                                            reset = True  # the cursor is 0 when the list is re-bound
+                                    if not reset:
                                         ok = False
-                                        problems.append((m, st, f"`{norm(st)}` re-binds the name list without resetting the cursor to 0 next"))
+                                        problems.append((m, st, f"`{norm(st)}` re-binds the name list while the cursor is not known to be 0 (and is not reset next)"))
                 for n in ast.walk(m.node):
                     if isinstance(n, ast.Call) and isinstance(n.func, ast.Attribute) and n.func.attr in ("remove", "pop", "clear") \
                             and isinstance(n.func.value, ast.Attribute) and n.func.value.attr == lfield:
@@ -112,10 +118,7 @@ def tables_ok(ctx):
     def make():
         from .props import c10
         rep = Report("C10")
-        try:
-            c10.run(ctx, rep)
-        except AnalysisError:
-            return False, False
+        c10.run(ctx, rep)  # an AnalysisError here is an analysis error of the caller too, never a silent loss of D-SPEC
         r1 = [f for f in rep.findings if f.rule == "R1"]
         r2 = [f for f in rep.findings if f.rule == "R2"]
         return (not r2), (not r1)
